@@ -236,18 +236,19 @@ class timeout:
     def on_subscribe(s, out):
         s.arm(out)
 
-    def on_next(s, out, x):
+    def on_next(s, out, i, x):
+        # (source 0 is the watched source; source 1, the fallback, gets the subscriber itself once it takes over)
         s.gen += 1
         out.on_next(x)
-        out.dispose_previous()  # the pending timer is replaced
         s.arm(out)
+        out.dispose_previous()  # the new timer replaces the pending one, which is cancelled
 
-    def on_error(s, out, e):
+    def on_error(s, out, i, e):
         s.gen += 1
         s.term = True
         out.on_error(e)
 
-    def on_completed(s, out):
+    def on_completed(s, out, i):
         s.gen += 1
         s.term = True
         out.on_completed()
@@ -255,5 +256,22 @@ class timeout:
     def on_fire(s, out, k):
         if s.gen == k:
             s.switched = True
-            out.dispose_previous()  # the source's subscription is released ...
-            out.subscribe(s.other)  # ... and the subscriber is handed to the fallback
+            out.subscribe_source(1)  # the subscriber is handed to the fallback ...
+            out.dispose_source(0)    # ... and the source's subscription is released
+
+
+class delay_subscription:
+    """the subscriber is handed to the source itself, duetime later (or at the absolute time): the whole sequence is shifted"""
+
+    def init(s):
+        s.clock = 0
+
+    def on_subscribe(s, out):
+        if s.absolute:
+            out.schedule_absolute(s.duetime)
+        else:
+            out.schedule_relative(s.duetime)
+
+    def on_fire(s, out):
+        out.subscribe_source(0)
+        out.cancel_timer()  # the subscription replaces the (spent) timer handle in the serial disposable
